@@ -95,6 +95,12 @@ func parseArchInto(ret *Arch, arch string) error {
 		 * gnu-kfreebsd-amd64 */
 		ret.OS = flavors[0]
 		ret.CPU = flavors[1]
+		if ret.OS == "any" || ret.CPU == "any" {
+			/* a wildcard such as linux-any or any-amd64 */
+			ret.ABI = "any"
+		} else {
+			ret.ABI = "gnu"
+		}
 	case 3:
 		/* This is something like bsd-openbsd-amd64 */
 		ret.ABI = flavors[0]
